@@ -1,7 +1,7 @@
 (* C03 - Run-to-completion: nested events are queued, FIFO, never interleaved.  Statements only. *)
 From Coq Require Import List Arith Bool ZArith.
 Import ListNotations.
-From PySM Require Import Impl.Engine Proofs.EngineFrame Proofs.EngineProofs Proofs.EngineRefine Proofs.EngineLog Proofs.NonRtcProofs.
+From PySM Require Import Proofs.WritesLocal Impl.Engine Proofs.EngineFrame Proofs.EngineProofs Proofs.EngineRefine Proofs.EngineLog Proofs.NonRtcProofs.
 
 (* while a transition is in progress (the lock is held) a send from any callback, at any phase and
    depth, only appends the event at the back of the queue and returns None *)
@@ -37,6 +37,23 @@ Theorem C03_queue_only_grows_in_activate :
   forall t td c, act_effect t c (activate beh nested rm t td c).
 Proof. exact activate_effect. Qed.
 Print Assumptions C03_queue_only_grows_in_activate.
+
+(* the same under a local hypothesis: only the callbacks this _activate call can run are required not to assign
+   the state themselves *)
+Theorem C03_queue_only_grows_while_skipping_local :
+  forall beh nested rm, (forall td c, Rres grows c (nested td c)) ->
+  forall e td cands c c1,
+    (forall t, In t cands -> quiet beh (all_cbs (atrans_of rm t))) ->
+    Skipped beh nested rm e td cands c c1 ->
+    field c1 = field c /\ locked c1 = locked c /\ exists q, queue c1 = queue c ++ q.
+Proof. exact skipped_grows_local. Qed.
+Print Assumptions C03_queue_only_grows_while_skipping_local.
+
+Theorem C03_queue_only_grows_in_activate_local :
+  forall beh nested rm, (forall td c, Rres grows c (nested td c)) ->
+  forall t td c, quiet beh (all_cbs t) -> act_effect t c (activate beh nested rm t td c).
+Proof. exact activate_effect_local. Qed.
+Print Assumptions C03_queue_only_grows_in_activate_local.
 
 (* the outermost call returns the result of the first event it processes, whatever later events
    return; the `__initial__` trigger never counts *)
